@@ -450,6 +450,40 @@ pub fn run(ctx: &mut Ctx) {
     for s in small.iter() {
         fault_space(ctx, s, &mut p, &donor, true);
     }
+    // --- opposite keys d and n - d (P and -P share x and z) with one ID: right after a verification under P, a signature
+    // made by n - d over H(ZA(P) || M) - the ZA of the OTHER key - is offered under -P. Only a verifier that computes ZA
+    // from the whole key rejects it; the reference decides.
+    {
+        let no = ctx.n(4, 64);
+        let mut po = ctx.prng("opposite_keys");
+        for i in 0..no {
+            let sub = po.next();
+            if !ctx.mine(i) {
+                continue;
+            }
+            let mut p = Prng::new(sub, "o");
+            let d = rand_scalar(&mut p, &(&c.n - 2u32));
+            let dn = &c.n - &d;
+            if d.is_zero() || dn >= &c.n - 1u32 {
+                continue;
+            }
+            let (pk_p, pk_n) = (r2::mul(&d, &r2::g()).unwrap(), r2::mul(&dn, &r2::g()).unwrap());
+            let (Some(l_p), Some(l_n)) = (lib_pk(&pk_p), lib_pk(&pk_n)) else { continue };
+            let (id, id_str): (Option<&'static str>, String) = if i % 2 == 0 { (None, DEFAULT_ID.to_string()) } else { (Some("opposite@keys"), "opposite@keys".to_string()) };
+            let msg = p.bytes(20);
+            let (k1, k2) = (rand_scalar(&mut p, &c.n), rand_scalar(&mut p, &c.n));
+            let Some((r1, s1)) = r2::sign(&d, id_str.as_bytes(), &msg, &k1) else { continue };
+            let e_p = r2::digest_e(id_str.as_bytes(), &pk_p, &msg);
+            let Some((r2f, s2f)) = r2::sign_e(&dn, &e_p, &k2) else { continue };
+            let sig_p = [r1.to_vec(), s1.to_vec()].concat();
+            let forged = [r2f.to_vec(), s2f.to_vec()].concat();
+            let s0 = Sample { d: Some(d.clone()), pk: pk_p.clone(), lpk: l_p.clone(), id, id_str: id_str.clone(), msg: msg.clone(), sig: sig_p.clone(), origin: "opposite-keys" };
+            probe(ctx, &s0, &l_p, &pk_p, id, &id_str, &msg, &sig_p, "opposite_keys:valid_under_P", false);
+            probe(ctx, &s0, &l_n, &pk_n, id, &id_str, &msg, &forged, "opposite_keys:signed_over_ZA_of_P_offered_under_-P", false);
+            probe(ctx, &s0, &l_n, &pk_n, id, &id_str, &msg, &sig_p, "opposite_keys:signature_of_P_offered_under_-P", false);
+            probe(ctx, &s0, &l_p, &pk_p, id, &id_str, &msg, &forged, "opposite_keys:forged_offered_under_P", false);
+        }
+    }
     // --- ZA || M of 2^29 bytes: the SM3 bit length needs more than 32 bits. Whatever the library accepts for such a
     // message must be a signature for the reference verifier too (one shard only, 1.5 GB transient).
     if ctx.shard == ctx.nshards - 1 {
